@@ -286,6 +286,27 @@ def box_contract(kind, box, pts):
             return "vectors_from_unitcell(unitcell_from_vectors(box)) != box"
     if kind in ("orthorhombic", "triclinic") and struc.is_orthogonal(b32) != (kind == "orthorhombic"):
         return f"is_orthogonal({kind}) = {struc.is_orthogonal(b32)}"
+    # periodic copies: repeat_box_coord / repeat_box give, after the original, one copy per neighbouring cell,
+    # each shifted by the lattice vector i*a + j*b + k*c of a different (i, j, k) in {-1, 0, 1}^3 minus (0, 0, 0)
+    rep, idx = struc.repeat_box_coord(f32, b32, amount=1)
+    n = len(f32)
+    if rep.shape != (27 * n, 3) or not np.array_equal(rep[:n], f32) or idx.tolist() != list(range(n)) * 27:
+        return f"repeat_box_coord: shape {rep.shape}, original first: {np.array_equal(rep[:n], f32)}"
+    seen = set()
+    for c in range(1, 27):
+        sh = np.linalg.solve(box.T, (rep[c * n:(c + 1) * n].astype(float) - f32.astype(float)).T).T
+        cell = np.round(sh[0])
+        if not np.allclose(sh, cell, atol=3e-3) or np.abs(cell).max() > 1 or not cell.any():
+            return f"repeat_box_coord: copy {c} is shifted by {sh[0].round(3).tolist()} box vectors"
+        seen.add(tuple(int(x) for x in cell))
+    if len(seen) != 26:
+        return f"repeat_box_coord: {len(seen)} distinct neighbouring cells instead of 26"
+    arr = struc.AtomArray(n)
+    arr.coord = f32
+    arr.box = b32
+    rarr, ridx = struc.repeat_box(arr, amount=1)
+    if not np.allclose(rarr.coord, rep, atol=1e-4) or ridx.tolist() != idx.tolist() or not np.allclose(rarr.box, b32):
+        return "repeat_box(atoms) differs from repeat_box_coord(coord)"
     return None
 
 
